@@ -73,7 +73,8 @@ func tableConcat(L *LState) int {
 		if !LVCanConvToString(v) {
 			L.RaiseError("invalid value (%s) at index %d in table for concat", v.Type().String(), i)
 		}
-		L.Push(v)
+		// the result is a string even when a single number is all there is to join
+		L.Push(LString(LVAsString(v)))
 		if i != j {
 			L.Push(sep)
 		}
